@@ -36,6 +36,17 @@ impl fmt::Write for StackBuf {
     }
 }
 
+/// Runs a crate call; a panic (where std has none) is a finding, not a harness crash.
+fn guarded<R>(sink: &Sink, monitor: &'static str, case: impl FnOnce() -> String, f: impl FnOnce() -> R) -> Option<R> {
+    match std::panic::catch_unwind(std::panic::AssertUnwindSafe(f)) {
+        Ok(r) => Some(r),
+        Err(p) => {
+            sink.viol(monitor, case(), format!("the call panicked: {:?}", crate::ops::panic_msg(p)));
+            None
+        }
+    }
+}
+
 struct Sink {
     engine: &'static str,
     prop: usize,
@@ -145,7 +156,7 @@ macro_rules! check_int {
         let x = $x;
         let mut sb = StackBuf::new();
         write!(sb, "{}", x).unwrap();
-        let l = x.to_lean_string();
+        let Some(l) = guarded($sink, "int-display", || format!("{} {}", $tyname, std::str::from_utf8(sb.bytes()).unwrap()), || x.to_lean_string()) else { continue };
         if l.as_bytes() != sb.bytes() {
             $sink.viol(
                 "int-display",
@@ -358,7 +369,7 @@ impl fmt::Display for Script<'_> {
 
 fn check_f32(sink: &Sink, bits: u32) {
     let x = f32::from_bits(bits);
-    let l = x.to_lean_string();
+    let Some(l) = guarded(sink, "float-roundtrip", || format!("f32 bits {bits:#010x}"), || x.to_lean_string()) else { return };
     match l.as_str().parse::<f32>() {
         Ok(y) if (x.is_nan() && y.is_nan()) || y.to_bits() == x.to_bits() => {}
         other => sink.viol("float-roundtrip", format!("f32 bits {bits:#010x}"), format!("text {:?} parses back as {:?}", l.as_str(), other)),
@@ -369,7 +380,7 @@ fn check_f32(sink: &Sink, bits: u32) {
 }
 fn check_f64(sink: &Sink, bits: u64) {
     let x = f64::from_bits(bits);
-    let l = x.to_lean_string();
+    let Some(l) = guarded(sink, "float-roundtrip", || format!("f64 bits {bits:#018x}"), || x.to_lean_string()) else { return };
     match l.as_str().parse::<f64>() {
         Ok(y) if (x.is_nan() && y.is_nan()) || y.to_bits() == x.to_bits() => {}
         other => sink.viol("float-roundtrip", format!("f64 bits {bits:#018x}"), format!("text {:?} parses back as {:?}", l.as_str(), other)),
@@ -593,7 +604,7 @@ const ALPHA_U16: [u16; 10] = [0x0000, 0x0041, 0xD7FF, 0xD800, 0xDBFF, 0xDC00, 0x
 
 fn check_utf8(sink: &Sink, b: &[u8], local: &mut [u64; 8]) {
     let std_r = std::str::from_utf8(b);
-    let l = LeanString::from_utf8(b);
+    let Some(l) = guarded(sink, "utf8", || format!("{b:02x?}"), || LeanString::from_utf8(b)) else { return };
     match (&std_r, &l) {
         (Ok(s), Ok(x)) => {
             if x.as_str() != *s {
@@ -604,7 +615,7 @@ fn check_utf8(sink: &Sink, b: &[u8], local: &mut [u64; 8]) {
         (Err(_), Err(_)) => local[1] += 1,
         _ => sink.viol("utf8", format!("{b:02x?}"), format!("from_utf8 accepts: {} but String::from_utf8 accepts: {}", l.is_ok(), std_r.is_ok())),
     }
-    let lossy = LeanString::from_utf8_lossy(b);
+    let Some(lossy) = guarded(sink, "utf8-lossy", || format!("{b:02x?}"), || LeanString::from_utf8_lossy(b)) else { return };
     let std_lossy = String::from_utf8_lossy(b);
     if lossy.as_str() != std_lossy.as_ref() {
         sink.viol("utf8-lossy", format!("{b:02x?}"), format!("from_utf8_lossy {:?} != {:?}", lossy.as_str(), std_lossy));
@@ -619,7 +630,7 @@ fn check_utf8(sink: &Sink, b: &[u8], local: &mut [u64; 8]) {
 
 fn check_utf16(sink: &Sink, u: &[u16], local: &mut [u64; 8]) {
     let std_r = String::from_utf16(u);
-    let l = LeanString::from_utf16(u);
+    let Some(l) = guarded(sink, "utf16", || format!("{u:04x?}"), || LeanString::from_utf16(u)) else { return };
     match (&std_r, &l) {
         (Ok(s), Ok(x)) => {
             if x.as_str() != s.as_str() {
@@ -630,7 +641,7 @@ fn check_utf16(sink: &Sink, u: &[u16], local: &mut [u64; 8]) {
         (Err(_), Err(_)) => local[5] += 1,
         _ => sink.viol("utf16", format!("{u:04x?}"), format!("from_utf16 accepts: {} but String::from_utf16 accepts: {}", l.is_ok(), std_r.is_ok())),
     }
-    let lossy = LeanString::from_utf16_lossy(u);
+    let Some(lossy) = guarded(sink, "utf16-lossy", || format!("{} units: {:04x?}...", u.len(), &u[..u.len().min(12)]), || LeanString::from_utf16_lossy(u)) else { return };
     let std_lossy = String::from_utf16_lossy(u);
     if lossy.as_str() != std_lossy {
         sink.viol("utf16-lossy", format!("{u:04x?}"), format!("from_utf16_lossy {:?} != {:?}", lossy.as_str(), std_lossy));
@@ -702,6 +713,48 @@ pub fn engine_utf(a: &Args) {
     let prefixes16: Vec<Vec<u16>> = vec!["0123456789ab".encode_utf16().collect(), "0123456789abcde".encode_utf16().collect(), "0123456789abcdef".encode_utf16().collect(), "€€€€€".encode_utf16().collect()];
     let n5 = enum_seqs(&sink, nthreads, &ALPHA_U16, pre_len.min(4), &prefixes16, &check_utf16);
     scope.push(format!("{n5} u16 sequences embedded after prefixes whose UTF-8 length is 12/15/16/15 bytes"));
+    // position sweep: a char of every width (and an invalid unit) right after p bytes/units of
+    // valid prefix, for every p up to `pos-max` (chunked encoders/decoders break at block edges)
+    let pos_max = a.num("pos-max", 1100);
+    par_ranges(nthreads, pos_max + 1, &|lo, hi| {
+        let mut local = [0u64; 8];
+        for p in lo..hi {
+            for (pi, pch) in ['a', 'é', '€'].iter().enumerate() {
+                let mut prefix = String::new();
+                while (prefix.len() as u64) + (pch.len_utf8() as u64) <= p {
+                    prefix.push(*pch);
+                }
+                while (prefix.len() as u64) < p {
+                    prefix.push('b');
+                }
+                for tail in ["x", "é", "€", "𝄞", "\u{10ffff}"] {
+                    let mut t = prefix.clone();
+                    t.push_str(tail);
+                    t.push_str("yz");
+                    // valid, then the same with a broken unit right after the tail char
+                    check_utf8(&sink, t.as_bytes(), &mut local);
+                    let mut b = t.clone().into_bytes();
+                    b.insert(prefix.len() + tail.len(), 0xE2);
+                    check_utf8(&sink, &b, &mut local);
+                    b.truncate(prefix.len() + tail.len() - 1);
+                    check_utf8(&sink, &b, &mut local);
+                    let mut u: Vec<u16> = t.encode_utf16().collect();
+                    check_utf16(&sink, &u, &mut local);
+                    let at = prefix.encode_utf16().count();
+                    u.insert(at, 0xDC00);
+                    check_utf16(&sink, &u, &mut local);
+                    u.truncate(at + 2);
+                    check_utf16(&sink, &u, &mut local);
+                    let _ = pi;
+                }
+            }
+        }
+        sink.evals.fetch_add((hi - lo) * 3 * 5 * 6, Relaxed);
+        let mut m = BTreeMap::new();
+        m.insert("position_sweep_cases".to_string(), (hi - lo) * 3 * 5 * 6);
+        sink.merge_cells(m);
+    });
+    scope.push(format!("position sweep: chars of width 1-4 (valid, followed by a broken unit, truncated) after every prefix length 0..={pos_max} of 1-, 2- and 3-byte prefix chars, UTF-8 and UTF-16"));
     // long nearly-valid inputs
     let n_long = a.num("long", 100_000);
     let seed0 = r.next();
@@ -887,13 +940,34 @@ pub fn engine_serde(a: &Args) {
     let n_arb = a.num("arbitrary", 100000);
     for i in 0..n_arb {
         let l = r.below(48);
-        let raw: Vec<u8> = (0..l)
-            .map(|_| match r.below(4) {
-                0 => *r.pick(&ALPHA_EXT),
-                1 => r.next() as u8,
-                _ => b'a' + r.below(26) as u8,
-            })
-            .collect();
+        let raw: Vec<u8> = if i % 2 == 0 {
+            (0..l)
+                .map(|_| match r.below(4) {
+                    0 => *r.pick(&ALPHA_EXT),
+                    1 => r.next() as u8,
+                    _ => b'a' + r.below(26) as u8,
+                })
+                .collect()
+        } else {
+            // valid text of mixed widths (incl. a genuine U+FFFD) followed by 1-2 length/control bytes
+            let mut b = gen_text(&mut r, l).into_bytes();
+            if i % 4 == 1 {
+                let at = r.below(b.len() + 1);
+                let cut = String::from_utf8_lossy(&b[..at]).len().min(at);
+                let at = (0..=cut).rev().find(|&k| std::str::from_utf8(&b[..k]).is_ok()).unwrap_or(0);
+                for (k, x) in "\u{fffd}".bytes().enumerate() {
+                    b.insert(at + k, x);
+                }
+            }
+            for _ in 0..r.range(1, 2) {
+                b.push(match r.below(3) {
+                    0 => 0xFF,
+                    1 => r.below(64) as u8,
+                    _ => r.next() as u8,
+                });
+            }
+            b
+        };
         let mut u1 = Unstructured::new(&raw);
         let mut u2 = Unstructured::new(&raw);
         let a1 = LeanString::arbitrary(&mut u1);
